@@ -345,9 +345,13 @@ def make_case(r, H, W, route, mode, mask_kind=None, wrap=None, steep=False):
     if route == "direct":
         # how the tensors are handed over (the values are the same): dtype, memory layout,
         # mask dtype, autograd flag
-        case["dtype"] = r.choice(["float32"] * 3 + ["float64"])
-        case["layout"] = r.choice(["contiguous"] * 3 + ["transposed", "strided"])
-        case["mask_dtype"] = r.choice(["bool"] * 3 + ["uint8", "int64", "float32"])
+        case["dtype"] = r.choice(["float32"] * 2 + ["float64"])
+        # half of the cases are NOT contiguous: transposed views, Fortran-ordered numpy arrays wrapped by
+        # torch.from_numpy (column-major strides), every-other-row/column views of a larger buffer, a view with a
+        # storage offset, a numpy view with strides in both axes; the mask gets the same kind of layout
+        case["layout"] = r.choice(["contiguous"] * 4 + ["transposed", "fortran", "strided", "strided_cols", "offset_view",
+                                                        "np_strided"])
+        case["mask_dtype"] = r.choice(["bool"] * 3 + ["uint8", "int64", "float32", "int32", "float64"])
         case["requires_grad"] = r.random() < 0.15
     if route == "bf":
         case["two_pass"] = r.random() < 0.6
@@ -439,27 +443,50 @@ def uf_state_of(uf):
             [float(v) for v in uf.offset.tolist()])
 
 
+def _layout(t, lay, fill):
+    """the same values in another memory layout (torch)"""
+    import torch
+    H, W = t.shape
+    if lay == "transposed":
+        return t.t().contiguous().t()
+    if lay == "fortran":
+        return torch.from_numpy(np.asfortranarray(t.numpy()))
+    if lay == "strided":
+        big = torch.full((2 * H, 2 * W), fill, dtype=t.dtype)
+        big[::2, ::2] = t
+        return big[::2, ::2]
+    if lay == "strided_cols":
+        big = torch.full((H, 3 * W + 1), fill, dtype=t.dtype)
+        big[:, 1::3] = t
+        return big[:, 1::3]
+    if lay == "offset_view":
+        big = torch.full((H + 2, W + 3), fill, dtype=t.dtype)
+        big[1:H + 1, 2:W + 2] = t
+        return big[1:H + 1, 2:W + 2]
+    if lay == "np_strided":
+        big = np.full((3 * H, 2 * W), fill, dtype=t.numpy().dtype)
+        big[1::3, ::2] = t.numpy()
+        return torch.from_numpy(big)[1::3, ::2]
+    return t
+
+
 def hand_over(case, x, mask):
     """the input tensors in the dtype / memory layout / mask dtype of the case (same values)"""
     import torch
     dt = {"float32": torch.float32, "float64": torch.float64}[case.get("dtype", "float32")]
-    xt = torch.from_numpy(x.copy()).to(dt)
-    mt = None if mask is None else torch.from_numpy(mask.copy())
     lay = case.get("layout", "contiguous")
-    if lay == "transposed":
-        xt = xt.t().contiguous().t()
-        if mt is not None:
-            mt = mt.t().contiguous().t()
-    elif lay == "strided":
-        big = torch.full((2 * x.shape[0], 2 * x.shape[1]), 7.25, dtype=dt)
-        big[::2, ::2] = xt
-        xt = big[::2, ::2]
-    if mt is not None:
+    xt = _layout(torch.from_numpy(x.copy()).to(dt), lay, 7.25)
+    mt = None
+    if mask is not None:
         md = case.get("mask_dtype", "bool")
+        mt = torch.from_numpy(mask.copy())
         if md != "bool":
-            mt = mt.to({"uint8": torch.uint8, "int64": torch.int64, "float32": torch.float32}[md])
+            mt = mt.to({"uint8": torch.uint8, "int64": torch.int64, "float32": torch.float32, "int32": torch.int32,
+                        "float64": torch.float64}[md])
+        mt = _layout(mt, lay, True if md == "bool" else 1)
     if case.get("requires_grad") and lay == "contiguous":
         xt.requires_grad_(True)
+    assert tuple(xt.shape) == x.shape and (lay == "contiguous" or x.size <= 1 or min(x.shape) == 1 or not xt.is_contiguous())
     return xt, mt
 
 
@@ -1252,8 +1279,10 @@ def run(ctx: Ctx):
         "that touch only across the wrap-around seam)/isolated (single-pixel components); modes smooth (wrapped by mod or "
         "angle), already (unwrapped input), offset2pi (wrapped input shifted by integer multiples of 2*pi, per component "
         "or globally), flat (embedding route: wrapped span below pi, returned as is), noise (non-smooth: congruence + "
-        "correspondence only); routes unwrap_phase_2d_torch (float32/float64, contiguous/transposed/strided tensors, "
-        "bool/uint8/int64/float32 masks, requires_grad) and unwrap_bf_overlap_phase_torch (masked embedding, one or two "
+        "correspondence only); routes unwrap_phase_2d_torch (float32/float64; half of the cases NON-CONTIGUOUS: transposed, "
+        "Fortran-ordered numpy arrays through torch.from_numpy, every-other-row/column views, views with a storage offset, "
+        "numpy views strided in both axes, the mask in the same layout; bool/uint8/int32/int64/float32/float64 masks, "
+        "requires_grad) and unwrap_bf_overlap_phase_torch (masked embedding, one or two "
         "passes, wrap_around passed or defaulted). UnionFindPhase is also driven directly with random cyclic edge lists "
         "(state compared after every union for n <= 12), _wrap_to_pi directly. A case is distinct by its arrays and "
         "hand-over; non-trivial when the wrapped input differs from the field by at least one 2*pi jump (or mode=already) "
@@ -1273,13 +1302,22 @@ def run(ctx: Ctx):
     ]
     ctx.cov["trusted_base"] += [
         "Coq 8.16.1 kernel incl. vm_compute (used to run the model); no native_compute",
-        "hand-written model coq/model/C17_Model.v + C17_Model_Ext.v tied to /repo by this correspondence run",
+        "hand-written model coq/model/C17_Model.v + C17_Model_Ext.v tied to /repo by this correspondence run AND by the "
+        "translator tie (C17_wrap_tie, C17_union_find_tie, C17_build_edges_tie, C17_driver_tie re-proved on every run "
+        "against the functions translated from the current source)",
         "harness/props/C17.py (generators, recorder around _pixel_reliability/_build_edges/_final_offsets, oracle, "
         "printers), harness/common.py",
         "theorems are over Q with an arbitrary half-period P; the implementation uses float32/float64 with P = pi "
         "(agreement to 1e-4 is validated on every case, not proved)",
     ]
     ctx.proofs_or_violation()
+    # translator tie (round 4): the unwrapping code is translated from its CURRENT source and proved equal to the
+    # model on every run (harness/translate_C17.py, harness/c17_tie.py, coq/gen_proofs/C17_Gen*.v)
+    try:
+        from ..c17_tie import run_tie
+        run_tie(ctx)
+    except Exception as e:  # noqa
+        ctx.broken_obligation = "; ".join(filter(None, [ctx.broken_obligation, "translator tie could not run: %r" % (e,)]))
     check_grid(ctx)
     check_uf_direct(ctx)
     check_wrap_direct(ctx)
@@ -1343,5 +1381,11 @@ def replay(ctx: Ctx, path):
         w32, w64 = run_wrap_direct([rp["x"]])
         print("_wrap_to_pi(%r) = %r / %r" % (rp["x"], w32[0], w64[0]))
         return 0
+    if rp.get("kind") == "xtest":
+        # translator cross-test: re-run the tie (translation, proofs, cross-test) on the current source
+        from ..c17_tie import run_tie
+        ok = run_tie(ctx)
+        print("translator tie re-run:", "holds" if ok and not ctx.n_violations else "BROKEN: %s" % (ctx.broken_obligation or rp.get("what")))
+        return 0 if ok and not ctx.n_violations else 1
     print("replay of kind %r: re-run ./check C17" % rp.get("kind"))
     return 0
